@@ -15,7 +15,15 @@ VF_TRACE_LIST(VF_TR_DEF)
  * use-after-free checks fire and --malloc-may-fail enumerates every failure position. */
 void *vf_malloc(size_t n)
 {
+#ifdef VF_MALLOC_CAP
+    /* opt-in (bounded VALUE units only; never a unit that serves C19 / C08): the block has the constant capacity VF_MALLOC_CAP
+     * bytes (a symbolic-size array of doubles costs 16-32 GB, DESIGN 2); a request beyond it is an assertion failure.
+     * Over-allocation can hide an overrun of the requested size: memory safety of the function is decided by its inductive unit. */
+    __CPROVER_assert(n <= VF_MALLOC_CAP, "VF_MALLOC_CAP: request inside the constant capacity");
+    void *p = malloc(VF_MALLOC_CAP);
+#else
     void *p = malloc(n);
+#endif
     if (p) g_live++;
     return p;
 }
